@@ -94,6 +94,46 @@ def jacobian_follows_error_parity_obligation(cfg, group):
     return lambda pkg: run_obligation(pkg, fn)
 
 
+def file_quaternion_sign_obligation(boundary=False):
+    """A measurement read from a file: an EDGE_SE3:QUAT line and the same line with the four quaternion numbers negated describe the
+    same measurement, and the reader gives both the same edge (whatever sign convention it normalises to).  boundary=False: scalar
+    part w != 0; boundary=True: w == 0 exactly (a half turn), where a convention based on the sign of w alone cannot tell q from -q."""
+    def hook(d):
+        vs = d.variables()
+        if vs == {"t8"} and len(d.t) == 1 and d.total_degree() == 1:
+            return {0} if boundary else {-1, 1}
+        return None
+
+    def fn(it):
+        from ..interp import ga, ClassRef
+        from .c14 import tokens, make_line
+        from ..g2o import mark_int
+        vals = tokens(it, "t", 2 + 7 + 21, unit_quat=(5, 6, 7, 8))
+        mark_int(it, vals[0], vals[1])
+        neg = list(vals)
+        for k in (5, 6, 7, 8):
+            neg[k] = -vals[k]
+        e1 = it.call_classmethod(ClassRef("EdgeOdometry"), "from_g2o", [make_line(it, "EDGE_SE3:QUAT", vals, " ", "\n"), {}])
+        e2 = it.call_classmethod(ClassRef("EdgeOdometry"), "from_g2o", [make_line(it, "EDGE_SE3:QUAT", neg, " ", "\n"), {}])
+        if e1 is None or e2 is None:
+            raise ObFail("an EDGE_SE3:QUAT line is not read as an odometry edge")
+        a, b = ga(e1, "estimate"), ga(e2, "estimate")
+        from ..interp import Quot
+
+        def same(x, y):
+            if isinstance(x, Quot) or isinstance(y, Quot):
+                xn, xd = (x.num, x.den) if isinstance(x, Quot) else (x, Poly.const(1))
+                yn, yd = (y.num, y.den) if isinstance(y, Quot) else (y, Poly.const(1))
+                return xn * yd == yn * xd
+            return x == y
+        if len(a.data) != len(b.data) or not all(same(x, y) for x, y in zip(a.data, b.data)):
+            raise ObFail("the line with the negated quaternion (the same rotation) is read as a different measurement%s: with an information "
+                         "matrix that couples translation and rotation, chi^2 and the optimum then depend on the sign written in the file" % (
+                             (" on the path [%s]" % " and ".join(it.conds)[:200]) if it.conds else ""))
+        return dict(components=len(a.data))
+    return lambda pkg: run_obligation(pkg, fn, hook=hook)
+
+
 # ------------------------------------------------------------------------------------------------ C08-b 2*pi periodicity
 def periodicity_obligation(cfg):
     def fn(it):
@@ -102,6 +142,10 @@ def periodicity_obligation(cfg):
         e = make_edge(it, cfg, p1, p2, z, off)
         err = it.call_method(e, "calc_error", [])
         wraps_after_err = list(it.wraps)
+        closed = [e_ for e_ in it.events if e_[0] == "closed-wrap"]
+        if closed and any(any(v_.startswith("WRAP") for v_ in c_.variables()) for c_ in err.data if hasattr(c_, "variables")):
+            raise ObFail("the angle normalisation behind the error (%s) maps to the closed interval [-pi, pi]: +pi stays +pi and -pi stays "
+                         "-pi, so adding 2*pi to an angle whose normalised value is the boundary flips the sign of the angular error" % closed[0][1])
         it.mark_wraps = False
         J = it.call_method(make_edge(it, cfg, p1, p2, z, off), "calc_jacobians", [])
         two_pi = PI() * 2
@@ -324,6 +368,11 @@ def run(run_, pkg, tier):
                 key = "C08-d/%s/jacobian-parity(%s.q)" % (cfg_name(cfg), name)
                 if run_.wants(key):
                     tasks.append((key, "C08-d-quaternion-sign", jacobian_parity_obligation(cfg, name), w))
+    rfn = pkg.method("EdgeOdometry", "from_g2o")
+    for key, bd in (("C08-d/from_g2o/EDGE_SE3:QUAT/sign-of-the-quaternion-in-the-file", False),
+                    ("C08-d/from_g2o/EDGE_SE3:QUAT/sign-of-the-quaternion-in-the-file[w=0]", True)):
+        if run_.wants(key):
+            tasks.append((key, "C08-d-quaternion-sign", file_quaternion_sign_obligation(bd), "%s:%d" % (rfn._gs_module, rfn.lineno)))
     for cfg in CONFIGS:
         if "PoseSE2" in cfg:
             fn = pkg.method(cfg[0], "calc_error")
@@ -362,7 +411,11 @@ def run(run_, pkg, tier):
         if run_.wants(key):
             tasks.append((key, "C08-ac-assembly-order-independent", assembly_obligation(scn), "%s:%d" % (gfn._gs_module, gfn.lineno)))
     results = run_tasks(pkg, tasks)
+    from ..algebra import across_thresholds
+    from ..assembly import directed_assembly_tasks
+    results, xt, xr = across_thresholds(run_, pkg, tasks, results, directed_assembly_tasks("C08-ac/assembly", "C08-ac-assembly-order-independent", "%s:%d" % (gfn._gs_module, gfn.lineno)))
     record(run_, tasks, results)
+    record(run_, xt, xr)
     run_.floor("C08 algebraic obligations", len(tasks) if run_.only is None else 20, 20)
     if run_.only is None:
         # the id lint is a syntactic proxy; when the relabelled scenarios (ids = opaque symbols, every order relation explored,
